@@ -423,6 +423,13 @@ def gen_c04(rng, tier):
             ops += ["N:v%d" % k, "V:v%d:c0:ok" % k, "G:v%d:2.9" % k]
         mk(cases, "honest-repeat", ops, {}, opts="nacc=0")
         cases[-1]["noretry"] = True
+    # pair-verify again on a connection that is already encrypted (new keys from the next request on), several times
+    for i in range(2 if tier == "quick" else 12):
+        ops = ["N:h", "S:h:c0:ok", "N:v", "V:v:c0:ok", "G:v:2.9"]
+        for k in range(rng.randrange(1, 4)):
+            ops += ["V:v:c0:ok", rng.choice(["G:v:2.9", "A:v", "P:v:2.9:%s:-" % rng.choice(["true", "false"])]), "G:v:2.9,4.13"]
+        mk(cases, "honest-rekey", ops, {}, opts="nacc=%d" % rng.choice([0, 12]))
+        cases[-1]["noretry"] = True
     # more than a thousand pair-setup exchanges M1..M4 on fresh connections: the accessory's SRP key is new every time
     # (about one in 256 has a leading zero byte); every one must succeed
     for i in range(1 if tier == "quick" else 4):
@@ -446,6 +453,11 @@ def oracle_c04(c, obs):
     pairs, ok = pair_tokens(c["line"], obs)
     for op, tok in pairs:
         p = op.split(":")
+        if c["kind"] == "honest-rekey":
+            if p[0] == "V" and tok != "V=st2/st4[M2ok]":
+                return "pair-verify (again) on an encrypted connection did not complete: " + tok
+            if p[0] in ("G", "A", "P") and not tok.startswith(p[0] + "=20"):
+                return "after verifying again on the same connection the controller is no longer served: %s -> %s" % (op, tok[:60])
         if p[0] == "SRPMANY" and tok != "SRPMANY=ok":
             return "pair-setup with the right code, on fresh connections: " + tok[8:].replace("-", " ")
         if c["kind"] == "honest":
